@@ -33,10 +33,21 @@ def mk_aln(rng, zero_pad=False):
     return '~' + pre + ','.join(idx)
 
 
-def usable_bases(rm, pool=ROLES_PLAIN):
+def own_literal_roles(rm):
+    """the literal (metacharacter-free) entries of the model's own role inventory"""
+    return [r for r in getattr(rm, 'roles', ()) if not any(c in r for c in '[]()|+*?\\.^$')]
+
+
+def usable_bases(rm, pool=ROLES_PLAIN, own=True):
     """R-base: base b is usable iff b is defined, or b does not end in -of and
-    b+'-of' is not defined."""
+    b+'-of' is not defined.  For a model with a sizeable inventory of its own (AMR) a third of
+    the result is drawn from that inventory, so that every table entry gets exercised."""
     out = []
+    lits = own_literal_roles(rm) if own else []
+    if len(lits) > 20:
+        base = list(pool)
+        extra = [r for r in lits if r not in base]
+        pool = base * max(1, (2 * len(extra)) // max(1, len(base))) + extra     # ~2/3 pool, ~1/3 inventory
     for b in pool:
         if rm.defines(b):
             out.append(b)
@@ -70,7 +81,7 @@ def rand_tree(rng, rm=None, n_nodes=None, p_reent=0.35, p_const=0.4, p_inv=0.3,
     for v in variables[1:]:
         children[parent[v]].append(v)
     denoted = set()
-    bases = usable_bases(rm, list(roles) if roles else ROLES_PLAIN + list(extra_roles))
+    bases = usable_bases(rm, list(roles), own=False) if roles else usable_bases(rm, ROLES_PLAIN + list(extra_roles))
     syms_ = [c for c in (syms or (SYMS + STRS)) if c not in varset]
     if no_constants_like:
         syms_ = [c for c in syms_ if not no_constants_like(c)]
@@ -291,7 +302,7 @@ def wide_tree(rng, rm, roles, n=None):
     generated variable indices into two digits - mixing constants, nested nodes and
     re-entrancies; well-formed by construction (distinct targets per role)."""
     n = n or rng.randrange(11, 17)
-    roles = [r for r in roles if r in usable_bases(rm, roles)]
+    roles = [r for r in roles if r in usable_bases(rm, roles, own=False)]
     branches = [('/', 'hub')]
     kids = 0
     for i in range(n):
